@@ -210,14 +210,28 @@ func (ft *FT) callWritesSeen(c *ssa.CallCommon, seen map[*ssa.Function]bool) ([]
 	}
 	name, callee, _ := ft.callName(c)
 	if m := ft.eng.models[name]; m != nil {
-		return m.writes(ft), false
+		return m.writesCall(ft, c), false
 	}
 	if con := ft.eng.cons.Funcs[name]; con != nil && con.HasMod && (callee == nil || callee.Blocks == nil || con.Trusted) {
-		// declared frame of a trusted / body-less callee: keys named in modifies (resolved lazily at the call); conservatively unknown here
+		// declared frame of a trusted / body-less callee: the keys named in its modifies clause
 		if len(con.Modifies) == 0 {
 			return []string{"$next"}, false
 		}
-		return nil, true
+		dummy := make([]Term, 0, 8)
+		n := c.Signature().Params().Len() + 1
+		for i := 0; i < n; i++ {
+			dummy = append(dummy, "0")
+		}
+		ctx := ft.calleeCtx(callee, nil, c, dummy, ft.entry, ft.entry)
+		targets, all, err := ft.modTargets(ctx, con.Modifies)
+		if err != nil || all {
+			return nil, true
+		}
+		ks := []string{"$next"}
+		for _, t := range targets {
+			ks = append(ks, t.key)
+		}
+		return ks, false
 	}
 	if callee != nil {
 		ks, all := ft.calleeWrites(callee, seen)
@@ -616,11 +630,18 @@ func (ft *FT) modTarget(ctx *SpecCtx, cl *Clause) (ts []modTarget, all bool, err
 				return []modTarget{{k, ""}}, false, nil
 			case "ghost":
 				v := ce.Args[0].(*ast.Ident)
-				k := "G!" + v.Name
-				if ft.heaps[k] == nil {
+				sf, ptypes, rtype := ctx.ghostByName(v.Name)
+				if sf == nil {
 					return nil, false, fmt.Errorf("unknown ghost %s", v.Name)
 				}
+				k, _ := ft.ghostKey(sf, ptypes, rtype)
 				return []modTarget{{k, ""}}, false, nil
+			}
+			if sf, ptypes, rtype := ctx.ghostByName(fid.Name); sf != nil {
+				// ghostname(obj): the ghost state of that object
+				k, _ := ft.ghostKey(sf, ptypes, rtype)
+				v := ctx.tr(ce.Args[0])
+				return []modTarget{{k, v.T}}, false, nil
 			}
 		}
 	}
